@@ -203,6 +203,16 @@ impl Controller {
         self.lock().park_senders = on;
     }
 
+    /// Gives `role` one permit without waiting for it to come back to its gate.
+    pub fn grant(&self, role: Role) {
+        {
+            let mut g = self.lock();
+            *g.permits.entry(role).or_insert(0) += 1;
+            g.roles.insert(role, RoleState::Running);
+        }
+        self.cv.notify_all();
+    }
+
     /// Lets `role` run freely from now on (its gate no longer stops it).
     pub fn free_run(&self, role: Role) {
         self.lock().free_run.insert(role, true);
